@@ -126,12 +126,31 @@ def sink_swap_sequence(run: lib.Run, pol, req, cfg) -> None:
 
 
 # ---------------------------------------------------------------------- the translated sink block vs the same statements run by CPython
-SINK_KINDS = ["missing", "none", (False, False), (False, True), (True, False), (True, True)]     # (coroutine function?, raises?)
+# how a sink attribute is written: missing, None, or a method in one of the THREE spellings the ports allow (`-> None | Awaitable[None]`):
+# "plain" = `def` doing its work when called, "coroFn" = `async def`, "awaitable" = a plain `def` RETURNING an awaitable (alternately a
+# coroutine object and an object with `__await__`) whose awaiting does the work; × the work returns / raises (where it runs)
+SPELLINGS = ("plain", "coroFn", "awaitable")
+SINK_KINDS = ["missing", "none"] + [(sp, r) for sp in SPELLINGS for r in (False, True)]
+_AWAITABLE_TOGGLE = [0]
+
+
+class _AwaitableObj:
+    """an awaitable that is not a coroutine object (what a Future or a client library's lazy call looks like)"""
+
+    def __init__(self, work):
+        self.work = work
+
+    def __await__(self):
+        self.work()
+        return None
+        yield  # noqa: unreachable — makes __await__ a generator function
 
 
 def make_holder(spec: dict, record: list, prefix: str):
-    """a sink object whose attributes are as `spec` says — "missing", "none" (the attribute is None), or a method that is a plain `def` /
-    an `async def` and returns / raises — recording every call whose body runs as (label, ran as a coroutine, positional arguments)"""
+    """a sink object whose attributes are as `spec` says — "missing", "none" (the attribute is None), or a method written as a plain
+    `def`, an `async def`, or a plain `def` returning an awaitable, whose work returns / raises.  A record (label, spelling, positional
+    arguments) is appended WHEN THE SINK'S WORK RUNS — for the two asynchronous spellings: when what the call returned is awaited; an
+    awaitable that is dropped has emitted nothing"""
     ns: dict = {}
     for name, kind in spec.items():
         if kind == "missing":
@@ -139,18 +158,29 @@ def make_holder(spec: dict, record: list, prefix: str):
         if kind == "none":
             ns[name] = None
             continue
-        coro, raises = kind
+        spelling, raises = kind
         label = f"{prefix}.{name}"
-        if coro:
-            async def f(self, *args, _l=label, _r=raises):
-                record.append((_l, True, args))
-                if _r:
-                    raise RuntimeError("sink down")
+
+        def work(args, _l=label, _r=raises, _s=spelling):
+            record.append((_l, _s, args))
+            if _r:
+                raise RuntimeError("sink down")
+        if spelling == "coroFn":
+            async def f(self, *args, _w=work):
+                _w(args)
+        elif spelling == "awaitable":
+            _AWAITABLE_TOGGLE[0] += 1
+            if _AWAITABLE_TOGGLE[0] % 2:
+                def f(self, *args, _w=work):
+                    async def later():
+                        _w(args)
+                    return later()
+            else:
+                def f(self, *args, _w=work):
+                    return _AwaitableObj(lambda: _w(args))
         else:
-            def f(self, *args, _l=label, _r=raises):
-                record.append((_l, False, args))
-                if _r:
-                    raise RuntimeError("sink down")
+            def f(self, *args, _w=work):
+                _w(args)
         ns[name] = f
     return type("Holder", (), ns)()
 
@@ -176,7 +206,7 @@ def translated_vs_python(run: lib.Run, facts: dict) -> tuple[bool, str]:
     Rbacx/Run/SrcEvalSinks.lean`) against the SAME statements of the current source text, compiled as a real `async def` and driven by
     CPython (pytolean_sinks.block_as_python) with RECORDING sink objects: every combination of {attribute missing, attribute None, `def`,
     `async def`} × {returns, raises} for `metrics.inc`, `metrics.observe` and `logger_sink.log`, `metrics=None`, `logger_sink=None`, over
-    Decision objects of every shape — compared on the list of calls (which sink, ran as a coroutine, arguments) and on the returned value
+    Decision objects of every shape — compared on the list of calls (which sinks' work ran — an awaitable counts when it was awaited —, arguments) and on the returned value
     (which must be the very Decision object handed in).  `getattr`, `inspect.iscoroutinefunction`, `await`, the three try/except blocks
     and `max(0.0, _now() - start)` are CPython's own.  Validates the readings the obligation C11_sinks_translated trusts."""
     import dataclasses
@@ -237,12 +267,12 @@ def translated_vs_python(run: lib.Run, facts: dict) -> tuple[bool, str]:
             same = end[1] is d
         else:
             ending = "raised"
-        wants.append(({"calls": [{"callee": c, "coro": co, "args": [proto.enc(a) for a in args]} for c, co, args in record], "ending": ending}, same))
+        wants.append(({"calls": [{"callee": c, "args": [proto.enc(a) for a in args]} for c, _sp, args in record], "ending": ending}, same))
         sinks = {}
         for (a, n), p in param.items():
             spec = met if a == "self.metrics" else log
             kind = "missing" if spec is None else spec[n]
-            sinks[p] = None if kind in ("missing", "none") else {"coro": kind[0], "raises": kind[1]}
+            sinks[p] = None if kind in ("missing", "none") else {"spelling": kind[0], "raises": kind[1]}
         args = {"self.metrics": None if met is None else "<metrics>", "self.logger_sink": None if log is None else "<logger>",
                 "d": proto.enc(rec(d)), "env": proto.enc(env)}
         lines.append(json.dumps({"sinks": sinks, "opaque": {p: proto.enc(v) for p, v in opq.items()},
@@ -308,7 +338,8 @@ def sink_matrix_on_engine(run: lib.Run) -> None:
                     if any(getattr(d, f) != getattr(base[j], f) for f in fields):
                         why = "the sinks changed the returned decision"
                     elif got != want:
-                        why = f"sink calls {got} for one evaluation, expected exactly {want}"
+                        why = (f"the sinks whose work ran (an awaitable counts when it was awaited) are {got} for one evaluation, expected "
+                               f"exactly {want}")
                     else:
                         for c, _, args in record:
                             if c.endswith("log"):
@@ -321,7 +352,8 @@ def sink_matrix_on_engine(run: lib.Run) -> None:
                 if why:
                     run.spec_failures.append({"policy": pol, "request": {"action": rq[1].name},
                                               "cfg": {"metrics": repr(met), "logger": repr(log), "cache": bool(n % 2), "repeat": rep},
-                                              "impl": {"calls": [(c, co) for c, co, _ in record]}, "model": None, "spec": "sinks of every kind: " + why})
+                                              "impl": {"sink_work_that_ran": [(c, sp) for c, sp, _ in record]}, "model": None,
+                                              "spec": "sinks of every kind: " + why})
                     return
 
 
@@ -334,7 +366,7 @@ def sinks_obligation(run: lib.Run, audit: dict) -> tuple[bool, bool, str, dict |
         tr = {**tr, "extraction_failed": tr["engine_sinks"]["failed"]}
     ok_tr, detail_tr = lib.run_obligation("C11_sinks_translated", deps=["C01_translated"])
     run.obligation("C11_sinks_translated: Generated.Src.engine_sinks (the current source text of Guard._evaluate_core_async from `if self.metrics "
-                   "is not None:` to `return d`, as a sink-call trace; the three sinks as parameters: absent / def / async def, returning / raising) "
+                   "is not None:` to `return d`, as a sink-call trace; the three sinks as parameters: absent / def / async def / def returning an awaitable, returning / raising) "
                    "returns the Decision it was handed and ends `returned` whatever the sinks do, makes exactly one inc, one observe, one log call in "
                    "this order (each iff its object is configured and has the attribute) with the labels / payload of Src.engine_metric_labels / "
                    "Src.engine_audit_payload = the events of the model's finishDecision",
@@ -344,7 +376,7 @@ def sinks_obligation(run: lib.Run, audit: dict) -> tuple[bool, bool, str, dict |
     else:
         ok_py, detail_py = translated_vs_python(run, tr)
     run.obligation("translated sink block evaluates like the same statements run by CPython with recording sinks (pytolean_sinks + "
-                   "Model/PySinks.lean vs CPython: getattr, iscoroutinefunction, await, try/except, def / async def / raising / missing sinks)",
+                   "Model/PySinks.lean vs CPython: getattr, await maybe_await, try/except, def / async def / awaitable-returning / raising / missing sinks)",
                    ok_py, detail_py)
     return ok_tr, ok_py, (detail_tr if not ok_tr else detail_py), tr
 
